@@ -417,6 +417,7 @@ def zero_families():
         "matvec": lambda ns, x: ns.dot(W2[:, : x.shape[-1]], ns.ravel(x)[: x.shape[-1]]) ** 2, "einsum": lambda ns, x: ns.einsum("...i,...i->...", x, x),
         "maximum_inactive": lambda ns, x: ns.maximum(x, -5.0) ** 2, "where": lambda ns, x: ns.where(x > -9.0, x * x, 0.0),
         "hypot": lambda ns, x: ns.hypot(x, 1.5), "arctan2": lambda ns, x: ns.arctan2(x, 1.5), "logaddexp": lambda ns, x: ns.logaddexp(x, 0.3),
+        "power_exponent": lambda ns, x: ns.power(1.5 + 0.5 * x, x), "pow_op_exponent": lambda ns, x: (2.0 + x * x) ** x,
         "multiply": lambda ns, x: ns.multiply(x, x + 1.0), "divide": lambda ns, x: x / (x * x + 1.0), "prod_shifted": lambda ns, x: ns.prod(x + 1.5, axis=-1),
     }
 
